@@ -24,7 +24,7 @@ let rec zlen (l : 'a list) = List.length l
 
 (* ---- state of one case ---- *)
 let caps = ref caps_init
-let cfg = ref { g_dont_convert_rich = false; g_xvp = false; g_utf8 = false; g_ledhook = false; g_reset_extclip = false; g_raw_for_24bpp = false; g_wrap_coalesce = false }
+let cfg = ref { g_dont_convert_rich = false; g_xvp = false; g_utf8 = false; g_ledhook = false; g_reset_extclip = false; g_raw_for_24bpp = false; g_wrap_coalesce = false; g_wrap_copy = false }
 let mk_pst bpp depth tc rmax gmax bmax w h =
   { p_bpp = bpp; p_depth = depth; p_truecolour = tc; p_rmax = rmax; p_gmax = gmax; p_bmax = bmax;
     p_fbw = w; p_fbh = h; p_latest = []; p_named = []; p_scale_requested = false }
@@ -162,7 +162,8 @@ let () =
         screen := Some sc;
         cfg := { g_dont_convert_rich = kvi toks "dontconv" = 1; g_xvp = kvi toks "xvp" = 1; g_utf8 = kvi toks "utf8" = 1;
                  g_ledhook = kvi toks "ledhook" = 1; g_reset_extclip = kvi toks "resetextclip" = 1;
-                 g_raw_for_24bpp = kvi toks "raw24" = 1; g_wrap_coalesce = kvi toks "wrapfix" = 1 };
+                 g_raw_for_24bpp = kvi toks "raw24" = 1; g_wrap_coalesce = kvi toks "wrapfix" = 1;
+                 g_wrap_copy = kvi toks "wrapcopy" = 1 };
         fbw := kvi toks "w"; fbh := kvi toks "h";
         pst := mk_pst (g "bpp") (g "depth") (kvi toks "tc" = 1) (g "rmax") (g "gmax") (g "bmax") (g "w") (g "h");
         print_endline "screen ok"
@@ -198,6 +199,7 @@ let () =
         caps := on_newfb !caps; fbw := int_of_string w; fbh := int_of_string h;
         (* a client without NewFBSize is never told: its announced size stays what it was *)
         print_endline (caps_line "caps" !caps)
+    | ["ev"; "sdsfail"] -> caps := on_sds_fail !caps; print_endline (caps_line "caps" !caps)
     | ["ev"; "setscale"] ->
         let (c', resize) = on_setscale !caps in
         caps := c'; pst := pst_set_scale !pst;
@@ -214,7 +216,8 @@ let () =
                    sn_clx = g "clx"; sn_cly = g "cly"; sn_scx = g "scx"; sn_scy = g "scy"; sn_cursor = cur;
                    sn_ledval = g "led"; sn_fbw = g "fbw"; sn_fbh = g "fbh"; sn_maxrects = g "maxrects";
                    sn_cmw = g "cmw"; sn_cmh = g "cmh"; sn_nscreens = g "nscr";
-                   sn_bpp = (if kv toks "bpp" = "" then (!pst).p_bpp else g "bpp") } in
+                   sn_bpp = (if kv toks "bpp" = "" then (!pst).p_bpp else g "bpp");
+                   sn_rdsc = g "rdsc"; sn_dserr = g "dse" } in
         print_endline (caps_line "mcaps" !caps);
         let (c', o) = model_update !cfg !caps sn in
         caps := c';
